@@ -18,6 +18,66 @@ CHECKS = {
   note="Trusted: as C01. Error kinds are not compared (the property does not fix them).",
   technique=TV + " (Codec.tla, CodecTrace.tla)",
   design="DESIGN.md §6 C02"),
+ "C04": dict(
+  category="model_checking",
+  text="Seeded random histories on the real nb and async(+Class C) front-ends in all 9 regions (OTAA and ABP), with hostile network input: JoinAccepts with arbitrary DLSettings/RxDelay/CFList (incl. RFU types), MAC-command streams with boundary and random field values (incl. reserved ones and malformed tails), replays, forgeries, random bytes, oversize frames, radio faults. Every call runs under catch_unwind with an RNG draw budget, so a panic or hang becomes a trace event no action of MacTrace.tla matches; after every history step the device's complete projected state must equal the specification's. One open finding (channel selection without a usable channel) is listed in known_findings.json and reported as KNOWN-FINDING.",
+  note='Trusted: Mac.tla (intended MAC behaviour, DESIGN Appendix B), Regions.tla (regional tables; disputed entries take the laxer reading), Codec.tla/Aes.tla/Cmac.tla (decide authenticity of every delivered frame and decode every uplink), TLC, the scripted radios/timer/RNG of the harness (no oracle logic). Histories are seeded-random (VERIF_SEED), not exhaustive; the exhaustive part is the named MC config over scaled-down constants.',
+  technique="explicit TLA+ specification (Mac.tla, Regions.tla, Codec.tla) checked with TLC: " + 'MacTrace.tla' + "; implementation traces validated against it",
+  design="DESIGN.md §6 C04"),
+ "C05": dict(
+  category="model_checking",
+  text='MCFcnt.cfg checks Mac!NextFcnt exhaustively on a scaled counter space (WireMod 8, MaxGap 2, 32 counters): accept iff last < N <= last+MaxGap, unique reconstruction, strictly increasing, no double accept, never backwards. Trace validation holds the real device to the same operator with the real constants: histories dominated by downlinks of every class; Codec.tla decides MIC validity, the spec decides freshness and size, and delivery / counters / responses / answers must match exactly.',
+  note='Trusted: Mac.tla (intended MAC behaviour, DESIGN Appendix B), Regions.tla (regional tables; disputed entries take the laxer reading), Codec.tla/Aes.tla/Cmac.tla (decide authenticity of every delivered frame and decode every uplink), TLC, the scripted radios/timer/RNG of the harness (no oracle logic). Histories are seeded-random (VERIF_SEED), not exhaustive; the exhaustive part is the named MC config over scaled-down constants.',
+  technique="explicit TLA+ specification (Mac.tla, Regions.tla, Codec.tla) checked with TLC: " + 'MCFcnt.cfg + MacTrace.tla' + "; implementation traces validated against it",
+  design="DESIGN.md §6 C05"),
+ "C06": dict(
+  category="model_checking",
+  text="MCFront.cfg explores every interleaving of sends, window outcomes, Class C receptions and a radio fault at every call position of the async procedure over a scaled counter space (including exhaustion): counters handed to the radio strictly increase. Trace validation: histories with radio faults injected at random call positions on both front-ends; every transmitted uplink is decoded by Codec.tla (MIC under the full 32-bit counter, low half on the wire) and the counter after every call must equal Mac.tla's (consumed also when the procedure aborts after a successful tx).",
+  note='Trusted: Mac.tla (intended MAC behaviour, DESIGN Appendix B), Regions.tla (regional tables; disputed entries take the laxer reading), Codec.tla/Aes.tla/Cmac.tla (decide authenticity of every delivered frame and decode every uplink), TLC, the scripted radios/timer/RNG of the harness (no oracle logic). Histories are seeded-random (VERIF_SEED), not exhaustive; the exhaustive part is the named MC config over scaled-down constants.',
+  technique="explicit TLA+ specification (Mac.tla, Regions.tla, Codec.tla) checked with TLC: " + 'MCFront.cfg + MacTrace.tla' + "; implementation traces validated against it",
+  design="DESIGN.md §6 C06"),
+ "C07": dict(
+  category="model_checking",
+  text="The specification is deterministic given the logged environment, so validating a trace is running a perfect twin that never saw the rejected frames: histories in which most delivered frames are unacceptable (random bytes, bit-flips, foreign keys, other address, replays, stale/far-future counters, oversize, JoinAccepts under a wrong key) inserted where there is something to lose (sticky answers, owed ACK, ADR counter, modified plan); every later uplink byte, radio configuration, response and the full state must equal the spec's, for which RxRejected leaves everything unchanged.",
+  note='Trusted: Mac.tla (intended MAC behaviour, DESIGN Appendix B), Regions.tla (regional tables; disputed entries take the laxer reading), Codec.tla/Aes.tla/Cmac.tla (decide authenticity of every delivered frame and decode every uplink), TLC, the scripted radios/timer/RNG of the harness (no oracle logic). Histories are seeded-random (VERIF_SEED), not exhaustive; the exhaustive part is the named MC config over scaled-down constants.',
+  technique="explicit TLA+ specification (Mac.tla, Regions.tla, Codec.tla) checked with TLC: " + 'MacTrace.tla' + "; implementation traces validated against it",
+  design="DESIGN.md §6 C07"),
+ "C08": dict(
+  category="model_checking",
+  text="Histories in which nearly every uplink is answered by an authentic Class A downlink with a MAC-command stream (FOpts or port 0, blocks and mixtures, boundary/random/reserved field values). For each accepted downlink the spec derives the answer shape (order, LinkADR block multiplicity, whole commands, truncation at 15 bytes only at the tail, stickiness) and compares it byte for byte with the device's pending answers and next uplinks; answer bits are read from the device and the post-state snapshot must be exactly the commanded effect for full acceptance and exactly the pre-state otherwise; requests on the closed invalid list must not be fully accepted.",
+  note='Trusted: Mac.tla (intended MAC behaviour, DESIGN Appendix B), Regions.tla (regional tables; disputed entries take the laxer reading), Codec.tla/Aes.tla/Cmac.tla (decide authenticity of every delivered frame and decode every uplink), TLC, the scripted radios/timer/RNG of the harness (no oracle logic). Histories are seeded-random (VERIF_SEED), not exhaustive; the exhaustive part is the named MC config over scaled-down constants.',
+  technique="explicit TLA+ specification (Mac.tla, Regions.tla, Codec.tla) checked with TLC: " + 'MacTrace.tla' + "; implementation traces validated against it",
+  design="DESIGN.md §6 C08"),
+ "C09": dict(
+  category="model_checking",
+  text="Every tx call of every history (9 regions, 4 (max power, gain) boards, join-bias settings, CFLists, LinkADRReq, NewChannelReq, ADR back-off) is checked against Mac!TxChoices computed from the specification's own channel plan (defined and enabled channel, in band, data rate defined and of the channel's bandwidth class, join channels/data rates) and against Mac!MaxTxPower = min(radio max, max EIRP - gain, commanded).",
+  note='Trusted: Mac.tla (intended MAC behaviour, DESIGN Appendix B), Regions.tla (regional tables; disputed entries take the laxer reading), Codec.tla/Aes.tla/Cmac.tla (decide authenticity of every delivered frame and decode every uplink), TLC, the scripted radios/timer/RNG of the harness (no oracle logic). Histories are seeded-random (VERIF_SEED), not exhaustive; the exhaustive part is the named MC config over scaled-down constants.',
+  technique="explicit TLA+ specification (Mac.tla, Regions.tla, Codec.tla) checked with TLC: " + 'MacTrace.tla' + "; implementation traces validated against it",
+  design="DESIGN.md §6 C09"),
+ "C10": dict(
+  category="model_checking",
+  text='Every RX1/RX2/RXC radio configuration and every timer value requested by either front-end is compared with the windows the specification bound when the uplink was prepared: RX1 = (downlink frequency paired with the channel actually used, regional RX1 table for the data rate actually used and the offset in force), RX2 = negotiated or default, delays = negotiated (join 5 s / 6 s), RX2 = RX1 + 1 s, shifted only by lead time / offset; Class C listens with RX2 parameters.',
+  note='Trusted: Mac.tla (intended MAC behaviour, DESIGN Appendix B), Regions.tla (regional tables; disputed entries take the laxer reading), Codec.tla/Aes.tla/Cmac.tla (decide authenticity of every delivered frame and decode every uplink), TLC, the scripted radios/timer/RNG of the harness (no oracle logic). Histories are seeded-random (VERIF_SEED), not exhaustive; the exhaustive part is the named MC config over scaled-down constants.',
+  technique="explicit TLA+ specification (Mac.tla, Regions.tla, Codec.tla) checked with TLC: " + 'MacTrace.tla' + "; implementation traces validated against it",
+  design="DESIGN.md §6 C10"),
+ "C11": dict(
+  category="model_checking",
+  text='Join-heavy histories (35% re-joins from a joined state; JoinAccepts enumerating every DLSettings byte, RxDelay 0..15 with 0/1 over-represented, CFList type 0/1/RFU/none with boundary frequencies and masks; wrong key, bit-flipped, truncated; arriving in RX1, RX2 or never). JoinRequest bytes must equal Codec!JoinRequestBytes for the DevNonce drawn; the device must join exactly on Codec!JoinAcceptOk and then hold the keys Codec.tla derives (two AES blocks evaluated by TLC), the assigned address, restarted counters and the regional rules for RxDelay / DLSettings / CFList.',
+  note='Trusted: Mac.tla (intended MAC behaviour, DESIGN Appendix B), Regions.tla (regional tables; disputed entries take the laxer reading), Codec.tla/Aes.tla/Cmac.tla (decide authenticity of every delivered frame and decode every uplink), TLC, the scripted radios/timer/RNG of the harness (no oracle logic). Histories are seeded-random (VERIF_SEED), not exhaustive; the exhaustive part is the named MC config over scaled-down constants.',
+  technique="explicit TLA+ specification (Mac.tla, Regions.tla, Codec.tla) checked with TLC: " + 'MacTrace.tla' + "; implementation traces validated against it",
+  design="DESIGN.md §6 C11"),
+ "C12": dict(
+  category="model_checking",
+  text="MCAdr.cfg explores all interleavings of silent/answered uplinks, confirmed and Class C downlinks, ADR toggles and data-rate overrides with ADR_ACK_LIMIT 2 / DELAY 1 in a region with a data-rate gap; ghost variables restate the property and must equal the MAC's bits and data rate. Trace validation with the real constants: long histories with few downlinks; every uplink's MType, DevAddr, ADR, ADRACKReq and ACK bits are decoded from the transmitted bytes and compared with Mac!UplinkFields, the ADR counter and data rate after every call with Mac!AfterRx2Complete.",
+  note='Trusted: Mac.tla (intended MAC behaviour, DESIGN Appendix B), Regions.tla (regional tables; disputed entries take the laxer reading), Codec.tla/Aes.tla/Cmac.tla (decide authenticity of every delivered frame and decode every uplink), TLC, the scripted radios/timer/RNG of the harness (no oracle logic). Histories are seeded-random (VERIF_SEED), not exhaustive; the exhaustive part is the named MC config over scaled-down constants.',
+  technique="explicit TLA+ specification (Mac.tla, Regions.tla, Codec.tla) checked with TLC: " + 'MCAdr.cfg + MacTrace.tla' + "; implementation traces validated against it",
+  design="DESIGN.md §6 C12"),
+ "C20": dict(
+  category="model_checking",
+  text="In the histories of the MAC family a serialise / deserialise / install step is inserted after about 5% of the calls (nb front-end: set_session of the deserialised copy). The snapshot after the step must equal the specification state in every session field (keys, address, both counters incl. 'no downlink yet', ADR counter, pending answers, owed ACK), and the rest of the history (next uplink bytes, verdicts on replayed downlinks) is validated against the unchanged specification state, i.e. the restored device is held to the original's future.",
+  note='Trusted: Mac.tla (intended MAC behaviour, DESIGN Appendix B), Regions.tla (regional tables; disputed entries take the laxer reading), Codec.tla/Aes.tla/Cmac.tla (decide authenticity of every delivered frame and decode every uplink), TLC, the scripted radios/timer/RNG of the harness (no oracle logic). Histories are seeded-random (VERIF_SEED), not exhaustive; the exhaustive part is the named MC config over scaled-down constants.',
+  technique="explicit TLA+ specification (Mac.tla, Regions.tla, Codec.tla) checked with TLC: " + 'MacTrace.tla' + "; implementation traces validated against it",
+  design="DESIGN.md §6 C20"),
  "C15": dict(
   category="model_checking",
   text="Exhaustive over the finite domain (8 SF x 10 BW): every implementation's LDRO decision (airtime calculator, SX126x, SX1276, SX1272, LR11xx) and the LDRO bit decoded from the SPI bytes each driver writes are recorded and validated by TLC against Modulation!Ldro (symbol time >= 16.38 ms, exact rational comparison), plus mutual agreement.",
